@@ -88,13 +88,21 @@ def _inlinable(fn):
     return True
 
 
+class _Renamed(object):
+    def __init__(self, name):
+        self.name = name
+
+
 class _Subst(ast.NodeTransformer):
     def __init__(self, mapping):
         self.mapping = mapping
 
     def visit_Name(self, node):
-        if node.id in self.mapping and isinstance(node.ctx, ast.Load):
-            return copy.deepcopy(self.mapping[node.id])
+        m = self.mapping.get(node.id)
+        if isinstance(m, _Renamed):
+            return ast.copy_location(ast.Name(id=m.name, ctx=node.ctx), node)      # every occurrence, stores included
+        if m is not None and isinstance(node.ctx, ast.Load):
+            return copy.deepcopy(m)
         return node
 
 
@@ -137,6 +145,12 @@ def _bind(fn, kind, call):
     prefix, mapping = [], {}
     for p in params:
         a = given[p]
+        if isinstance(a, ast.Name) and a.id == p and p in assigned:
+            # the helper re-binds its parameter: that must not reach the caller's variable of the same name
+            fresh = '%s_%s' % (p, fn.name.strip('_'))
+            prefix.append(ast.Assign(targets=[ast.Name(id=fresh, ctx=ast.Store())], value=copy.deepcopy(a)))
+            mapping[p] = _Renamed(fresh)
+            continue
         if isinstance(a, ast.Name) and a.id == p:
             continue
         if _simple(a) and p not in assigned:
@@ -258,6 +272,8 @@ def _terminates(stmts):
     last = stmts[-1]
     if isinstance(last, (ast.Return, ast.Raise)):
         return True
+    if isinstance(last, ast.Try) and not last.orelse and not last.finalbody:
+        return _terminates(last.body) and all(_terminates(h.body) for h in last.handlers)
     return isinstance(last, ast.If) and _terminates(last.body) and _terminates(last.orelse)
 
 
@@ -273,6 +289,15 @@ def _tailify(stmts):
         if not _has_return(st):
             out.append(st)
             continue
+        if isinstance(st, ast.Try) and not st.orelse and not st.finalbody and not stmts[i + 1:]:
+            # a try in tail position: a return in its body or in a handler is the end of the function either way
+            body = _tailify(st.body)
+            hs = [_tailify(h.body) for h in st.handlers]
+            if body is None or any(h is None for h in hs):
+                return None
+            new = ast.Try(body=body, handlers=[ast.ExceptHandler(type=h.type, name=h.name, body=hb) for h, hb in zip(st.handlers, hs)],
+                          orelse=[], finalbody=[])
+            return out + [ast.copy_location(new, st)]
         if not isinstance(st, ast.If):
             return None
         rest = stmts[i + 1:]
@@ -367,6 +392,10 @@ def _expand(fn, kind, call, how, target=None):
                     conv(last.orelse)
                     if len(last.orelse) == 1 and isinstance(last.orelse[0], ast.Pass):
                         last.orelse = []
+                elif isinstance(last, ast.Try):
+                    conv(last.body)
+                    for h_ in last.handlers:
+                        conv(h_.body)
             conv(body)
             if body and isinstance(body[-1], ast.Pass) and len(body) > 1:
                 body.pop()
